@@ -58,8 +58,13 @@ type Contract struct {
 	Lets       []LetDef
 	File       string
 	Line       int
+	FromSchema string // name of the schema this contract was instantiated from / inherits
+	Inherit    string // explicit contract: clauses of this schema are prepended
+	FParams    map[string]string // function-typed parameter -> schema its argument must satisfy
 	Replay     *Expr // string-valued expression (pre-state): the input buffer for counterexample replay
 	Ghosts     []string
+	merged     bool
+	panicSet   bool
 	NoSafety   bool
 	AllocsNone bool
 }
@@ -76,9 +81,17 @@ type SpecDef struct {
 	Opaque bool // evaluated as an uninterpreted predicate over its arguments; reveal(NAME(args)) unfolds it
 }
 
+type Schema struct {
+	Name    string
+	Pattern *regexp.Regexp
+	Exclude *regexp.Regexp
+	C       *Contract
+}
+
 type ContractSet struct {
-	Funcs map[string]*Contract
-	Specs map[string]*SpecDef
+	Funcs   map[string]*Contract
+	Schemas []*Schema
+	Specs   map[string]*SpecDef
 	Files []string
 	Lines int
 }
@@ -190,6 +203,27 @@ func (cs *ContractSet) line(cur **Contract, text, file string, ln int) error {
 		}
 		cs.Specs[m[1]] = &SpecDef{Name: m[1], Params: ps, Body: e, Opaque: word == "opaque"}
 		return nil
+	case word == "schema":
+		// schema NAME REGEXP [except REGEXP]
+		f := strings.Fields(rest)
+		if len(f) != 2 && !(len(f) == 4 && f[2] == "except") {
+			return fmt.Errorf("malformed schema line")
+		}
+		re, err := regexp.Compile("^(?:" + f[1] + ")$")
+		if err != nil {
+			return err
+		}
+		sc := &Schema{Name: f[0], Pattern: re, C: &Contract{Func: "schema " + f[0], PanicKind: "never", Loops: map[int]*LoopContract{}, File: file, Line: ln, FromSchema: f[0]}}
+		if len(f) == 4 {
+			ex, err := regexp.Compile("^(?:" + f[3] + ")$")
+			if err != nil {
+				return err
+			}
+			sc.Exclude = ex
+		}
+		cs.Schemas = append(cs.Schemas, sc)
+		*cur = sc.C
+		return nil
 	case word == "func":
 		if _, dup := cs.Funcs[rest]; dup {
 			return fmt.Errorf("duplicate contract for %s", rest)
@@ -212,6 +246,17 @@ func (cs *ContractSet) line(cur **Contract, text, file string, ln int) error {
 		c.Props = strings.Fields(rest)
 	case "trusted":
 		c.Trusted = true
+	case "inherit":
+		c.Inherit = rest
+	case "fparam":
+		f := strings.Fields(rest)
+		if len(f) != 2 {
+			return fmt.Errorf("malformed fparam line")
+		}
+		if c.FParams == nil {
+			c.FParams = map[string]string{}
+		}
+		c.FParams[f[0]] = f[1]
 	case "replay":
 		e, err := ParseExpr(rest)
 		if err != nil {
@@ -270,6 +315,7 @@ func (cs *ContractSet) line(cur **Contract, text, file string, ln int) error {
 			tags = splitTags(word[i:])
 		}
 		c.PanicTags = tags
+		c.panicSet = true
 		switch {
 		case rest == "never" || rest == "always":
 			c.PanicKind = rest
@@ -289,7 +335,9 @@ func (cs *ContractSet) line(cur **Contract, text, file string, ln int) error {
 			return fmt.Errorf("malformed loop clause")
 		}
 		var k int
-		if _, err := fmt.Sscanf(f[0], "%d", &k); err != nil {
+		if f[0] == "*" {
+			k = -1
+		} else if _, err := fmt.Sscanf(f[0], "%d", &k); err != nil {
 			return fmt.Errorf("malformed loop ordinal %q", f[0])
 		}
 		lc := c.Loops[k]
@@ -353,4 +401,53 @@ func (c *Contract) tagsFor(cl *Clause) []string {
 		return cl.Tags
 	}
 	return c.Props
+}
+
+// forFunc returns the contract of a function: an explicit one (with the clauses of the schema it
+// inherits prepended), or the instantiation of the first schema whose pattern matches the name.
+func (cs *ContractSet) forFunc(name string) *Contract {
+	if c, ok := cs.Funcs[name]; ok {
+		if c.Inherit != "" && !c.merged {
+			for _, sc := range cs.Schemas {
+				if sc.Name == c.Inherit {
+					c.Requires = append(append([]*Clause{}, sc.C.Requires...), c.Requires...)
+					c.Ensures = append(append([]*Clause{}, sc.C.Ensures...), c.Ensures...)
+					if c.Modifies == nil {
+						c.Modifies = sc.C.Modifies
+					}
+					if len(c.Props) == 0 {
+						c.Props = sc.C.Props
+					}
+					if !c.panicSet {
+						c.PanicKind, c.PanicWhen = sc.C.PanicKind, sc.C.PanicWhen
+					}
+					c.Lets = append(append([]LetDef{}, sc.C.Lets...), c.Lets...)
+					c.FromSchema = sc.Name
+					for k, v := range sc.C.Loops {
+						if _, has := c.Loops[k]; !has {
+							c.Loops[k] = v
+						}
+					}
+					if c.FParams == nil {
+						c.FParams = sc.C.FParams
+					}
+				}
+			}
+			c.merged = true
+		}
+		return c
+	}
+	for _, sc := range cs.Schemas {
+		if sc.Pattern.MatchString(name) && (sc.Exclude == nil || !sc.Exclude.MatchString(name)) {
+			c := *sc.C
+			c.Func = name
+			c.Loops = map[int]*LoopContract{}
+			for k, v := range sc.C.Loops {
+				c.Loops[k] = v
+			}
+			cs.Funcs[name] = &c
+			return &c
+		}
+	}
+	return nil
 }
